@@ -1,6 +1,10 @@
 package props
 
 import (
+	"fmt"
+	"go/constant"
+	"go/token"
+	"regexp"
 	"strings"
 
 	"golang.org/x/tools/go/ssa"
@@ -59,9 +63,48 @@ func runC05(c *eng.Ctx, thorough bool) {
 			case strings.HasPrefix(arg, "φmaxTTL"):
 				addMax = append(addMax, a)
 			}
-			// the base is the caller's issue time (or now when absent)
-			if s := eng.Expr(a.Common().Args[0]); !strings.Contains(s, "startTime") {
-				c.Violation(f, "hard stop counted from the issue time", a.Pos(), "the hard stop is computed from "+s+", not from the start (issue) time", nil)
+		}
+		// the base of every hard stop is the caller's issue time: among the
+		// values the base is read out of (through phis and Truncate) is the
+		// parameter startTime; the only other admissible leaf is time.Now(),
+		// and only on an edge behind startTime.IsZero()
+		c.Clause("R5", "C05.1")
+		hardStops := append(append([]ssa.Instruction{}, addExplicit...), addMax...)
+		if c.Floor(f, "hard-stop computations .Add(maxTTL | explicitMaxTTL)", len(hardStops), 2) {
+			isZeroStart := eng.GD(f, `^time\.\(Time\)\.IsZero\(startTime\)$`, true)
+			for _, hs := range hardStops {
+				a := hs.(ssa.CallInstruction)
+				site := "hard stop counted from the issue time: base of .Add(" + eng.Expr(a.Common().Args[1]) + ")"
+				leaves, nowEdges := timeLeaves(a.Common().Args[0])
+				hasParam := false
+				bad := ""
+				for _, l := range leaves {
+					switch x := l.(type) {
+					case *ssa.Parameter:
+						if x.Name() == "startTime" {
+							hasParam = true
+						} else {
+							bad = "parameter " + x.Name()
+						}
+					case *ssa.Call:
+						if eng.CalleeName(&x.Call) != "time.Now" {
+							bad = eng.Expr(l)
+						}
+					default:
+						bad = eng.Expr(l)
+					}
+				}
+				switch {
+				case !hasParam:
+					c.Violation(f, site, a.Pos(), "the caller's issue time (parameter startTime) is not among the values the hard stop is computed from ("+eng.ExprDeep(a.Common().Args[0])+"): the hard stop moves with every renewal", nil)
+				case bad != "":
+					c.Violation(f, site, a.Pos(), "the hard stop may be computed from "+bad+", neither the caller's issue time nor the current time", nil)
+				default:
+					c.OK(f, site, a.Pos(), "base is read out of param startTime (or time.Now() when absent): "+eng.ExprDeep(a.Common().Args[0]))
+					if len(nowEdges) > 0 {
+						c.CutEdges(f, "issue time defaults to now ("+eng.Expr(a.Common().Args[1])+")", nowEdges, isZeroStart)
+					}
+				}
 			}
 		}
 		periodic := map[string]bool{`^0 < period$`: true, `^0 < explicitMaxTTL$`: true}
@@ -107,12 +150,6 @@ func runC05(c *eng.Ctx, thorough bool) {
 			c.Violation(f, "period capped by the effective max", f.Pos(), "a period larger than the effective maximum is no longer capped", nil)
 		} else {
 			c.CutEdges(f, "period = maxTTL", pc, eng.G(f, `^φmaxTTL\{.*\} < period$`, true))
-		}
-		// issue time: caller's start time unless zero
-		c.Clause("R5", "C05.1")
-		st := eng.PhiEdges(f, "startTime", func(v ssa.Value) bool { return strings.Contains(eng.Expr(v), "time.Now") })
-		if len(st) > 0 {
-			c.CutEdges(f, "startTime = now", st, eng.G(f, `^time\.\(Time\)\.IsZero\(\)$`, true))
 		}
 	}
 
@@ -233,6 +270,22 @@ func runC05(c *eng.Ctx, thorough bool) {
 			// non-renewable refusal (A3: bypassed by the batch arm)
 			c.Cut(f, "nil-error return crosses the non-renewable refusal (secret)", succ, eng.Or(eng.G(f, `^le\.Secret == nil$`, true), eng.G(f, `^le\.Secret\.LeaseOptions\.Renewable$`, true)), nil)
 			c.Cut(f, "nil-error return crosses the non-renewable refusal (auth)", succ, eng.Or(eng.G(f, `^le\.Auth == nil$`, true), eng.G(f, `^le\.Auth\.LeaseOptions\.Renewable$`, true)), nil)
+			// the same two refusals for a lease that is NOT under a batch token
+			// (the batch arm is the known finding A3; assuming it away keeps the
+			// refusal for ordinary leases decided on its own)
+			if batch, ok := c.P.ConstValue("logical.TokenTypeBatch"); !ok {
+				c.Unresolved("logical.TokenTypeBatch")
+			} else {
+				batchArm := `^le\.ClientTokenType == ` + regexp.QuoteMeta(batch) + `$`
+				notBatch := map[string]bool{batchArm: false}
+				if len(eng.CondEdges(f, batchArm, true)) == 0 {
+					// no batch arm: the unconditional rules above already speak about every lease
+					c.OK(f, "batch arm of renewable()", f.Pos(), "renewable() has no batch-token arm; the non-renewable refusals above cover every lease")
+				} else {
+					c.Cut(f, "non-batch lease: nil-error return crosses the non-renewable refusal (secret)", succ, eng.Or(eng.G(f, `^le\.Secret == nil$`, true), eng.G(f, `^le\.Secret\.LeaseOptions\.Renewable$`, true)), notBatch)
+					c.Cut(f, "non-batch lease: nil-error return crosses the non-renewable refusal (auth)", succ, eng.Or(eng.G(f, `^le\.Auth == nil$`, true), eng.G(f, `^le\.Auth\.LeaseOptions\.Renewable$`, true)), notBatch)
+				}
+			}
 		}
 		c.Clause("R5", "C05.3")
 		for _, b := range eng.Calls(f, `^time\.\(Time\)\.Before$`) {
@@ -391,6 +444,107 @@ func runC05(c *eng.Ctx, thorough bool) {
 					c.OK(f, "on{retry budget exhausted} no re-queue", mark[0].Pos(), "the exhausted edge never re-queues")
 				}
 			}
+			// the counter the budget test reads is incremented on every path to the
+			// test, and the incremented record is what is put back into the pending map
+			c.Clause("R3", "C05.6")
+			var incs []ssa.Instruction
+			var rec ssa.Value // the local pendingInfo record whose counter is incremented
+			for _, st := range eng.Stores(f, `\.revokesAttempted$`) {
+				bo, ok := st.Val.(*ssa.BinOp)
+				if !ok || bo.Op != token.ADD {
+					continue
+				}
+				ld, ok := bo.X.(*ssa.UnOp)
+				k, isConst := bo.Y.(*ssa.Const)
+				if !ok || ld.Op != token.MUL || eng.Expr(ld.X) != eng.Expr(st.Addr) || !isConst || k.Value == nil || constant.Sign(k.Value) <= 0 {
+					continue
+				}
+				incs = append(incs, st)
+				if fa, ok := st.Addr.(*ssa.FieldAddr); ok {
+					rec = fa.X
+				}
+			}
+			budgetIfs := eng.EdgeIfs(eng.CondEdges(f, `revokesAttempted.* < vault\.maxRevokeAttempts$|< 6$|revokesAttempted\) < `, true))
+			c.Before(f, "revokesAttempted = revokesAttempted + k (k > 0)", incs, "retry budget test", budgetIfs)
+			var putBack []ssa.Instruction
+			for _, ms := range eng.Calls(f, `^sync\.\(\*Map\)\.Store$`) {
+				a := ms.Common().Args
+				if !strings.HasSuffix(eng.Expr(a[0]), ".pending") {
+					continue
+				}
+				// the value stored is the record carrying the incremented counter
+				v := a[2]
+				if mi, ok := v.(*ssa.MakeInterface); ok {
+					v = mi.X
+				}
+				if ld, ok := v.(*ssa.UnOp); ok && ld.Op == token.MUL && rec != nil && ld.X == rec {
+					putBack = append(putBack, ms)
+				}
+			}
+			isRet := func(in ssa.Instruction) bool { _, ok := in.(*ssa.Return); return ok }
+			site := "after{re-queue} the record with the incremented counter is stored back into the pending map"
+			switch {
+			case len(incs) == 0:
+				c.Violation(f, site, f.Pos(), "no increment of revokesAttempted: the re-queued record carries the old attempt count, the retry budget never trips", nil)
+			default:
+				bad := false
+				for _, rq := range requeue {
+					if h := eng.Reach(eng.Query{Fn: f, StartAfter: rq, Barriers: putBack, Target: isRet}); h != nil {
+						c.Violation(f, site, h.Instr.Pos(), "a re-queued lease can leave OnFailure without m.pending.Store(leaseID, <the incremented record>): the attempt count is lost", h.Witness)
+						bad = true
+						break
+					}
+				}
+				if !bad {
+					c.OK(f, site, requeue[0].Pos(), fmt.Sprintf("every return after the %d re-queue site(s) passes pending.Store of the record whose counter was incremented", len(requeue)))
+				}
+			}
 		}
 	}
+}
+
+// timeLeaves walks a time.Time value back through phis and the
+// value-preserving Truncate/Round/UTC/Local methods (to their receiver) and
+// returns the leaves; nowEdges are the CFG edges through which a value whose
+// leaves are all time.Now() flows into a phi on the way.
+func timeLeaves(v ssa.Value) (leaves []ssa.Value, nowEdges []eng.Edge) {
+	seen := map[ssa.Value]bool{}
+	var walk func(v ssa.Value) []ssa.Value
+	walk = func(v ssa.Value) []ssa.Value {
+		switch x := v.(type) {
+		case *ssa.Phi:
+			if seen[v] {
+				return nil
+			}
+			seen[v] = true
+			var out []ssa.Value
+			for i, e := range x.Edges {
+				sub := walk(e)
+				out = append(out, sub...)
+				allNow := len(sub) > 0
+				for _, l := range sub {
+					if cl, ok := l.(*ssa.Call); !ok || eng.CalleeName(&cl.Call) != "time.Now" {
+						allNow = false
+					}
+				}
+				if allNow {
+					pb := x.Block().Preds[i]
+					for si, sb := range pb.Succs {
+						if sb == x.Block() {
+							nowEdges = append(nowEdges, eng.Edge{From: pb, Succ: si})
+						}
+					}
+				}
+			}
+			return out
+		case *ssa.Call:
+			switch eng.CalleeName(&x.Call) {
+			case "time.(Time).Truncate", "time.(Time).Round", "time.(Time).UTC", "time.(Time).Local":
+				return walk(x.Call.Args[0])
+			}
+		}
+		return []ssa.Value{v}
+	}
+	leaves = walk(v)
+	return leaves, nowEdges
 }
